@@ -103,7 +103,12 @@ class UntypedAtomic(AnyAtomicType):
                 if hasattr(other, 'make'):
                     return op(type(other).make(self.value, parser=self.parser), other)
                 else:
-                    return op(type(other)(self.value), other)
+                    try:
+                        return op(type(other)(self.value), other)
+                    except ArithmeticError:
+                        # decimal.InvalidOperation is not a ValueError
+                        msg = "{!r} cannot be cast to {!r}"
+                        raise ValueError(msg.format(self.value, type(other))) from None
             case _:
                 return cast(bool, NotImplemented)
 
